@@ -46,14 +46,47 @@ EXPLANATION = (
 # ---------------------------------------------------------------------------
 # generic helpers (candidates for promotion to sa/patterns.py / sa/cfg.py)
 
-def _rebound(fi, name):
-    """`name` (a parameter) is (re)bound somewhere in the function."""
+def _rebound(fi, name, ignore=()):
+    """`name` (a parameter) is (re)bound somewhere in the function (other
+    than by the statements in `ignore`)."""
     for s in fi.cfg.nodes:
         if isinstance(s, (str, Assume)):
+            continue
+        if any(s is x for x in ignore):
             continue
         if name in stmt_defs(s):
             return True
     return False
+
+
+_INT_CASTS = ('int', 'operator.index')
+
+
+def _int_normalisations(fi, name):
+    """Statements `name = int(name)` / `name = operator.index(name)` that
+    rebind the parameter `name` to the Python integer of the same value (the
+    operand is the parameter itself or an earlier normalisation of it).  For
+    an argument already validated as integral this is the identity on values
+    and only fixes the TYPE, so guards on `name` before and after such a
+    statement speak about the same number."""
+    sites = []
+    grew = True
+    while grew:
+        grew = False
+        for s in fi.cfg.nodes:
+            if isinstance(s, (str, Assume)) or not isinstance(s, ast.Assign) or any(s is x for x in sites):
+                continue
+            if not (len(s.targets) == 1 and isinstance(s.targets[0], ast.Name) and s.targets[0].id == name):
+                continue
+            v = s.value
+            if not (isinstance(v, ast.Call) and call_name(v) in _INT_CASTS and len(v.args) == 1 and not v.keywords
+                    and isinstance(v.args[0], ast.Name) and v.args[0].id == name):
+                continue
+            ds = fi.rd.defs_at(s, name)
+            if ds and all(d == 'PARAM' or any(d is x for x in sites) for d in ds):
+                sites.append(s)
+                grew = True
+    return sites
 
 
 def _inside(mod, node, container):
@@ -471,7 +504,7 @@ class _Counts:
         ck, mod, fn, fi = self.ck, self.mod, self.fn, self.fi
         rule = 'C03.D1.lag-guard'
         lag = self.ps[1]
-        if _rebound(fi, lag):
+        if _rebound(fi, lag, ignore=_int_normalisations(fi, lag)):
             ck.missing(rule, 'parameter `%s` is rebound in %s' % (lag, COUNTS))
             return
 
@@ -699,7 +732,7 @@ class _Counts:
             ck.bad('C03.D3.per-row', mod, hc, COUNTS, u(hc), 'the helper must receive lag_time=%s (its default is used instead)' % lag)
         else:
             v = classify(fi.expand(lv), [lag, 'int(%s)' % lag], scope={lag, sw, nst})
-            if v[0] == 'match' and _rebound(fi, lag):
+            if v[0] == 'match' and _rebound(fi, lag, ignore=_int_normalisations(fi, lag)):
                 v = ('far', 0, None)
             ck.decide(v, 'C03.D3.per-row', mod, hc, COUNTS, '%s: lag = %s' % (u(hc)[:120], u(lv)),
                       'lag_time is forwarded to the helper', 'the helper must receive lag_time=%s' % lag)
@@ -1321,11 +1354,131 @@ class _Counts:
                     ok = True
             if ok:
                 ck.ok(rule, mod, s, construct, 'inferred number of states = largest assigned state + 1 over ALL assigned frames')
+                self.n_states_width(s, vx, x)
             else:
                 verdict = classify(vx, ['np.concatenate(%s).max() + 1' % assigns], scope={assigns})
                 ck.decide(verdict, rule, mod, s, COUNTS, construct, '', why)
         if not inferred:
             ck.bad(rule, mod, c, COUNTS, nst, 'no inference of the number of states when `%s` is None; ' % nst + why)
+
+
+    # -- added after the bug hunt (narrow-dtype-nstates-overflow, unsigned-lag-crash) ------
+    def n_states_width(self, s, vx, x):
+        """Dtype provenance of the `+ 1`.  `x` is a concatenation of (masked)
+        rows of the caller's array: masking and concatenation preserve the
+        element type, so `x.max()` is a numpy scalar of the STORAGE type of the
+        assignments and `x.max() + 1` is evaluated in that type (a Python int
+        operand does not widen a numpy scalar).  When the largest state id is
+        the largest value of the type (state 127 in int8, 255 in uint8 ...)
+        the sum wraps.  Necessary: the maximum is converted to a Python int
+        (or the data are widened) BEFORE the addition."""
+        ck, mod = self.ck, self.mod
+        rule = 'C03.D5.n-states.width'
+        add = None
+        for n in ast.walk(vx):
+            if isinstance(n, ast.BinOp) and isinstance(n.op, ast.Add) and (const_value(n.left) == 1 or const_value(n.right) == 1):
+                add = n
+                break
+        if add is None:
+            ck.missing(rule, 'the `+ 1` of the inferred number of states: %s' % u(vx)[:120])
+            return
+        o = add.right if const_value(add.left) == 1 else add.left
+        widened = False
+        if isinstance(o, ast.Call) and (call_name(o) in _INT_CASTS or call_name(o) in _WIDE or
+                                        (isinstance(o.func, ast.Attribute) and o.func.attr in ('item', 'tolist', '__index__') and not o.args)):
+            widened = True
+        for n in ast.walk(o):
+            if isinstance(n, ast.Call):
+                if isinstance(n.func, ast.Attribute) and n.func.attr == 'astype' and n.args and u(n.args[0]) in _WIDE:
+                    widened = True
+                dt = kwarg(n, 'dtype')
+                if dt is not None and u(dt) in _WIDE and call_name(n) in _JOINS + ('np.max', 'np.amax', 'np.array', 'np.asarray'):
+                    widened = True
+        ck.check(widened, rule, mod, s, COUNTS, 'largest state id + 1 (inferred number of states)',
+                 'the largest state id is converted to a Python int (or widened) before 1 is added',
+                 '`%s`: the maximum of the concatenated rows is a numpy scalar of the storage dtype of the assignments '
+                 '(masking and concatenation preserve it), and `+ 1` is evaluated in that dtype: for int8 data containing '
+                 'state 127, uint8 containing 255, int16 containing 32767 ... the inferred number of states wraps '
+                 '(negative / 0) and coo_matrix raises, although every state id is representable; convert first: '
+                 'int(<...>.max()) + 1' % u(s)[:120])
+
+    def lag_type(self, helper_calls):
+        """Precondition of the slice lemma: L is a Python int.  The helper
+        negates its lag (`a[:-L]`); unary minus (and `n - L`) on a fixed-width
+        UNSIGNED integer wraps around (-np.uint8(2) == 254), and such scalars
+        are numbers.Integral, so an `isinstance(lag, numbers.Integral)`
+        validation lets them through.  Necessary: on every path to the helper
+        call the lag was converted with int()/operator.index(), or the
+        validation admits Python ints only, or the helper converts it itself."""
+        ck, mod, fi = self.ck, self.mod, self.fi
+        rule = 'C03.D1.lag-int'
+        lag = self.ps[1]
+        hfn = mod.func(HELPER)
+        hfi = finfo(mod, hfn)
+        hlag = self.hps[1]
+        hnorm = _int_normalisations(hfi, hlag)
+        wraps = []
+        for n in ast.walk(hfn):
+            nm = None
+            if isinstance(n, ast.UnaryOp) and isinstance(n.op, ast.USub) and isinstance(n.operand, ast.Name):
+                nm = n.operand
+            elif isinstance(n, ast.BinOp) and isinstance(n.op, ast.Sub) and isinstance(n.right, ast.Name):
+                nm = n.right
+            if nm is not None and nm.id == hlag:
+                try:
+                    ds = hfi.defs_of_use(nm)
+                except Exception:
+                    ds = {'PARAM'}
+                if 'PARAM' in ds or not all(any(d is x for x in hnorm) for d in ds):
+                    wraps.append(n)
+        if not wraps:
+            ck.ok(rule, mod, hfn, '%s: no negation/subtraction of the raw lag' % HELPER,
+                  'the helper never negates (or subtracts) its lag argument as received')
+            return
+        norms = _int_normalisations(fi, lag)
+        for hc in helper_calls:
+            lv = arg_or_kw(hc, 1, self.hps[1])
+            if lv is None:
+                continue            # the helper default (a literal)
+            construct = 'type of the lag handed to %s (negated there: %s)' % (HELPER, u(wraps[0])[:40])
+            e = lv
+            if isinstance(e, ast.Call) and call_name(e) in _INT_CASTS:
+                ck.ok(rule, mod, hc, construct, 'converted at the call: %s' % u(e)[:60])
+                continue
+            e = _orig(fi, lv)
+            if isinstance(e, ast.Call) and call_name(e) in _INT_CASTS:
+                ck.ok(rule, mod, hc, construct, 'converted before the call: %s' % u(e)[:60])
+                continue
+            if not (isinstance(e, ast.Name) and e.id == lag):
+                ck.missing(rule, 'lag argument of the helper call not traced to the parameter `%s`: %s' % (lag, u(lv)[:80]))
+                continue
+            try:
+                ds = fi.defs_of_use(e)
+            except Exception:
+                ds = None
+            if ds and all(any(d is x for x in norms) for d in ds):
+                ck.ok(rule, mod, hc, construct, '`%s` is rebound to int(%s) on every path to the call' % (lag, lag))
+                continue
+            if not ds or not all(d == 'PARAM' or any(d is x for x in norms) for d in ds):
+                ck.missing(rule, 'definitions of `%s` reaching the helper call not recognised' % lag)
+                continue
+            # the raw argument reaches the call: which types does the validation admit?
+            admitted = None
+            for a in _assumes(fi, fi.stmt(hc)):
+                for cj in conjuncts(a.test, a.polarity) or []:
+                    if isinstance(cj, tuple) and cj[0] == 'expr' and cj[2] is True and isinstance(cj[1], ast.Call) \
+                            and call_name(cj[1]) == 'isinstance' and len(cj[1].args) == 2 and u(cj[1].args[0]) == lag:
+                        admitted = u(cj[1].args[1])
+            if admitted in ('int', '(int,)', 'bool', '(int, bool)'):
+                ck.ok(rule, mod, hc, construct, 'only Python ints pass the validation isinstance(%s, %s)' % (lag, admitted))
+                continue
+            ck.bad(rule, mod, hc, COUNTS, construct,
+                   '`%s` reaches %s as received (validated %s) and is negated there (`%s`): for an unsigned fixed-width '
+                   'integer lag (np.uint8(2), np.uint64(2) - numbers.Integral, >= 1) the negation wraps around '
+                   '(-np.uint8(2) == 254), the from-slice is (nearly) the whole trajectory, and stacking it on the '
+                   'to-slice raises ValueError; the slice lemma needs a Python int: `%s = int(%s)` after the validation'
+                   % (lag, HELPER, ('only by isinstance(%s, %s)' % (lag, admitted)) if admitted else 'by no type check',
+                      u(wraps[0])[:40], lag, lag))
 
 
 def d_counts(ck):
@@ -1338,6 +1491,7 @@ def d_counts(ck):
     if not helper_calls:
         return
     k.lag_guard(helper_calls)
+    k.lag_type(helper_calls)
     for hc in helper_calls:
         k.per_row(hc)
     k.concat_uses(helper_calls)
